@@ -1,5 +1,5 @@
 ENGINES = [
-    {"name": "pyvc", "path": "/verif/pyvc", "serves_properties": ["C02", "C04", "C09"],
+    {"name": "pyvc", "path": "/verif/pyvc", "serves_properties": ["C02", "C04", "C05", "C09"],
      "kind_free_text": "own verification-condition generator: symbolic execution of the AST of the real functions (re-read from /repo on every run) against sidecar contracts, discharged with z3; bounded run-time contract checking of the real functions as labelled stand-in"},
 ]
 NOTES = ("Contract-based deductive verification with an own VC generator (PyVC) over the real source; see DESIGN.md. "
@@ -20,5 +20,10 @@ CHECKS.append(
      "text": "every DependencyMapper.map_<K> proved equal to one unfolding of the specification Deps (written from the property statement) for symbolic boolean flags x the three include_calls settings, with and without a pre-filled CSE cache (cache invariant + frame); every FlopCounterBase.map_<K> proved equal to the independent flop count; NodeCountMapper.post_visit, get_num_nodes, CSEAwareFlopCounter.map_common_subexpression proved with old-state postconditions; bounded run over all 28 flag settings, cached/uncached, fresh/reused instances",
      "note": "sets as z3 sets over object identity; M-IND; dispatcher (C04) and cache (C05) contracts assumed for the cached variants; get_num_nodes uses an assumed contract for the walk over the whole tree; the relevance lemma (evaluation needs no other variable) is bounded only",
      "technique": "deductive: per-method VCs from the real AST vs. executable specification, z3 (sets, ints); bounded run-time contract check as stand-in"})
+CHECKS.append(
+    {"id": "C05", "category": "proof",
+     "text": "CachedMapper.__call__ proved for every node class, symbolic handler set and symbolic extra arguments to return what the un-memoized dispatch returns (cache invariant assumed on hits and re-established for every entry written, no handler runs on a hit, only _cache assigned); get_cache_key proved injective in (type(expr), expr, args, kwargs); CSE caching mix-in proved for the evaluation and dependency mappers; table obligations on the concrete cached classes; optimizer (all 32 option sets), cached/uncached pairs and call histories as bounded stand-in",
+     "note": "A-EQ-KEY (look-up with an equal key = look-up with that key) and determinism of handlers are assumed; the premise that mapping respects equality of nested constants is false on the pinned tree (known findings C05-nested-constant-type*); optimize_mapper is bounded only (translation validation of its output is not attempted); known finding C05-inline-rec-bypasses-cache",
+     "technique": "deductive: object-invariant VCs on the real __call__ with a symbolic dict, injectivity lemma over the real get_cache_key, z3; bounded differential runs for the optimizer"})
 _PENDING = "check not built yet in this session (planned per DESIGN.md section 5); not claimed until its check exists"
 NOT_APPLICABLE = [{"property_id": f"C{i:02d}", "reason": _PENDING} for i in range(1, 21) if f"C{i:02d}" not in {c["id"] for c in CHECKS}]
